@@ -35,6 +35,14 @@ class FuncInfo:
         self.is_property = any(
             isinstance(d, ast.Name) and d.id == "property" for d in node.decorator_list
         )
+        names = [d.id if isinstance(d, ast.Name) else (d.attr if isinstance(d, ast.Attribute) else "?")
+                 for d in getattr(node, "decorator_list", [])]
+        self.kind = "static" if "staticmethod" in names else ("class" if "classmethod" in names else None)
+        self.is_generator = any(isinstance(n, (ast.Yield, ast.YieldFrom, ast.Await)) for n in ast.walk(node)) \
+            or isinstance(node, ast.AsyncFunctionDef)
+        # decorators whose effect the abstract semantics does not model (caches, wrappers, setters ...)
+        self.unknown_decorators = [n for n in names if n not in ("property", "staticmethod", "classmethod", "abstractmethod",
+                                                                 "overload", "final", "override")]
 
     @property
     def qualname(self) -> str:
@@ -327,6 +335,17 @@ class Program:
                 for m in c.methods:
                     if m in banned:
                         problems.append(f"{c.module.relpath}:{c.name} defines {m}")
+        modelled = {"__init__", "__str__", "__repr__", "__post_init__"}
+        # implicit invocations the interpreter models for plain (non-node) objects
+        modelled_plain = modelled | {"__eq__", "__ne__", "__hash__", "__bool__", "__len__", "__contains__", "__getitem__",
+                                     "__setitem__", "__call__", "__lt__", "__le__", "__gt__", "__ge__", "__enter__", "__exit__"}
+        for c in self.classes.values():
+            rooted = any(self.is_subclass(c.name, r) for r in roots)
+            for m in c.methods:
+                if not (m.startswith("__") and m.endswith("__")) or m in banned and rooted:
+                    continue
+                if m not in (modelled if rooted else modelled_plain):
+                    problems.append(f"{c.module.relpath}:{c.name} defines {m} (implicit invocation is not modelled)")
         for f in self.all_functions():
             for n in ast.walk(f.node):
                 if isinstance(n, ast.Call) and isinstance(n.func, ast.Name) and n.func.id in (
